@@ -216,7 +216,7 @@ def cases(draw, family):
 
 def subchecks():
     return [
-        SubCheck("transformers", oracle, cases("transformer"), quick=300, thorough=5000, shards_quick=6, shards_thorough=16),
+        SubCheck("transformers", oracle, cases("transformer"), quick=600, thorough=5000, shards_quick=6, shards_thorough=16),
         SubCheck("classifiers_regressor", oracle, cases("estimator"), quick=240, thorough=4000, shards_quick=10, shards_thorough=16),
     ]
 
